@@ -181,6 +181,39 @@ def run(ctx: Ctx) -> None:
                 break
         ctx.evaluations += nsweep
         ctx.cov["delimiter_sweep_strings"] = nsweep
+        # html switched off on a *used* instance, by every route: the configuration at render time has html off, whatever was
+        # parsed before and however the option got its value
+        RAW = ["<script>alert(1)</script>\n", "a <img src=x onerror=y> b\n", "<div onclick=\"e()\">\n\nx\n", "> <!-- c\n> d -->\n", "- <b>x</b>\n", "<?php x ?>\n"]
+
+        def routes():
+            def r_item(md):
+                md.options["html"] = False
+            def r_attr(md):
+                md.options.html = False
+            def r_set(md):
+                md.set({**md.options, "html": False})
+            def r_cfg(md):
+                md.configure("js-default")
+            return {"options[...]": r_item, "options.attr": r_attr, "set": r_set, "configure": r_cfg}
+        for rname, route in routes().items():
+            for warm in (True, False):
+                mdr = MarkdownIt("commonmark")
+                if warm:
+                    for src in RAW:
+                        mdr.render(src)
+                try:
+                    route(mdr)
+                except Exception:
+                    continue
+                if mdr.options.get("html"):
+                    continue
+                for src in RAW:
+                    html = mdr.render(src)
+                    err = lex(html)
+                    ctx.count((src, rname, warm), nontrivial=True)
+                    if err:
+                        ctx.fail("malformed-output", f"html switched off through {rname} on a {'used' if warm else 'fresh'} instance: output is not renderer-only markup: {err}",
+                                 {"input": src, "cfg": {"preset": "commonmark", "route": rname, "warm": warm}, "route": rname, "warm": warm, "output": html[:400], "error": err})
         got = drv.batch(lines)
         for ln, e, g, (src, cfg) in zip(lines, exp, got, metas):
             ctx.corr_compared += 1
@@ -255,6 +288,21 @@ def search(ctx: Ctx):
 
 
 def replay(ctx: Ctx, obj: dict) -> bool:
+    if "route" in obj:
+        from markdown_it import MarkdownIt
+        md = MarkdownIt("commonmark")
+        if obj.get("warm"):
+            md.render("<b>x</b>\n\n<div>\n")
+        r = obj["route"]
+        if r == "options[...]":
+            md.options["html"] = False
+        elif r == "options.attr":
+            md.options.html = False
+        elif r == "set":
+            md.set({**md.options, "html": False})
+        else:
+            md.configure("js-default")
+        return lex(md.render(obj["input"])) is None
     if "input" in obj and "cfg" in obj:
         return lex(gens.make_md(obj["cfg"]).render(obj["input"])) is None
     return True
